@@ -1341,7 +1341,9 @@ class ChunkGen:
         if r < 0.25:
             case = self.gen_num(rng.choice([1, 2]))
             self.features.add('FORMAT-case')
-            parts = [p for p in parts if p.k == 'fld' or not set(p.s) & set('&<>')]
+            # no & < > ' " in text that is case-converted: inside a loop they are HTML entities by then (see finding
+            # C17-loop-apostrophe-entity-uppercased-in-html)
+            parts = [p for p in parts if p.k == 'fld' or not set(p.s) & set('&<>\'"')]
         elif r < 0.5:
             case = self.gen_num(0)
         if case is None or case.v == 0:
@@ -1777,6 +1779,18 @@ class ChunkGen:
         if hz == 'let-space':
             plan = 'vars'
         self.plan = plan
+        if hz == 'quote-upper':
+            # an apostrophe in the output string of a loop, case-converted by #FORMAT
+            lid = self.new_loop_id()
+            fmt = N('format', case=self.gen_num(rng.choice([2, 2, 1])), parts=[lit(rng.choice(["it's ", "player's ", "'", 'say "x" '])), N('var', id=lid)])
+            if rng.random() < 0.5:
+                loop = N('foreach', values=[lit(self.plain_word()) for _ in range(rng.randint(1, 3))], id=lid, body=fmt, sep=lit(', '), fsep=None)
+            else:
+                loop = N('for', start=self.gen_num(1), stop=self.gen_num(rng.randint(1, 3)), step=None, flags=None, id=lid, body=fmt, sep=lit(' '), fsep=None)
+            self.features.add('hazard:quote-in-loop-output-case-converted')
+            self.hazard_hit = True
+            self.plan = 'pure'
+            return N('seq', items=[lit(self.words(1, 2, plain=True) + ' '), loop])
         if plan in ('vars', 'mixed'):
             kinds = ['let_int'] * 5 + ['let_str'] * 3 + ['let_dict'] * 2 + ['let_key'] * 2 + ['def'] * 4 + ['while'] * 2
             nst = rng.randint(1, 4)
@@ -1863,21 +1877,20 @@ def make_chunk(rng, cid, region, ro, base_state, opts, hazard=None, tries=60):
                 raise Reject('newline')
             if hazard and not getattr(g, 'hazard_hit', False):
                 raise Reject('hazard not exercised')
-            out1, st, ev = evaluate(tree, base_state, opts, 12345)
-            if st.stack:
-                raise Reject('unbalanced snapshot stack')
-            ev2 = Evaluator(st, opts['base'], opts['case'], opts['cmdvars'], 12345)
-            out2 = ev2.text(tree, Env())
-            if out1 != out2 or st.stack:
-                raise Reject('not idempotent')
-            if len(text) > 1500 or len(out1) > 3000:
-                raise Reject('too long')
             if tree_depth(tree) > 4:
                 raise Reject('nested deeper than the quantifier of the property (4)')
-            if g.uses_pc:
-                # the value must be defined at every address the text can be attached to
-                for pc in ro['code_addrs']:
-                    evaluate(tree, base_state, opts, pc)
+            # the value must be defined, and the same when the text is expanded again on the state it left behind
+            # (the writers expand some fields more than once), at every address the text can be attached to
+            for pc in (ro['code_addrs'] if g.uses_pc else [12345]):
+                out1, st, ev = evaluate(tree, base_state, opts, pc)
+                if st.stack:
+                    raise Reject('unbalanced snapshot stack')
+                ev2 = Evaluator(st, opts['base'], opts['case'], opts['cmdvars'], pc)
+                out2 = ev2.text(tree, Env())
+                if out1 != out2 or st.stack:
+                    raise Reject('not idempotent')
+                if len(text) > 1500 or len(out1) > 3000:
+                    raise Reject('too long')
             return Chunk(cid, text, tree, g, r.stats)
         except (Reject, Undefined) as e:
             last = e
